@@ -17,7 +17,7 @@ import (
 	"verifharness/internal/src"
 )
 
-var ops = []string{"delay", "timer", "interval", "intervalinitial", "rangeinterval", "repeatinterval", "timeout", "timeout-slow", "throttletime", "sampletime", "buffertime", "buffertimeorcount", "stop"}
+var ops = []string{"delay", "timer", "interval", "intervalinitial", "rangeinterval", "repeatinterval", "timeout", "timeout-slow", "throttletime", "throttletime-2subs", "delayeach", "sampletime", "buffertime", "buffertimeorcount", "stop"}
 
 func plan(tier string, seed int64) []driver.Case {
 	reps := 40
@@ -361,6 +361,77 @@ func runCase(c driver.Case) driver.Result {
 		}
 		if n > 0 && countNext(ev) == 0 && x.r.Terminal() != rec.Next {
 			return fail("first-value-not-delivered", "no value was let through at all")
+		}
+		res.Events = int64(len(ev))
+	case "throttletime-2subs":
+		// one throttled observable over a hot source, a second subscriber arriving in mid-stream: each
+		// subscriber has its own window - never two values within one window for either of them
+		subj := ro.NewPublishSubject[int]()
+		o := ro.ThrottleTime[int](d)(subj)
+		rA, rB := rec.New("A"), rec.New("B")
+		begin := map[string]int64{}
+		subA := o.Subscribe(rec.Raw[int](rA))
+		var subB ro.Subscription
+		join := 1 + rng.Intn(n-1)
+		for i, g := range gs {
+			if g > 0 {
+				time.Sleep(g)
+			}
+			if i == join {
+				subB = o.Subscribe(rec.Raw[int](rB))
+			}
+			begin[fmt.Sprint(i)] = rec.Mono()
+			subj.Next(i)
+		}
+		subj.Complete()
+		subA.Unsubscribe()
+		if subB != nil {
+			subB.Unsubscribe()
+		}
+		for name, r := range map[string]*rec.Rec{"A": rA, "B": rB} {
+			ev := r.Events()
+			if msg, ok := subseq(ev, n); !ok {
+				return fail("reordered-or-invented", "subscriber "+name+": "+msg)
+			}
+			var prev *rec.Event
+			for i := range ev {
+				if ev[i].Kind != rec.Next {
+					continue
+				}
+				if prev != nil {
+					if dt := ev[i].T - begin[prev.Val]; dt < int64(d) {
+						return fail("two-values-in-one-window", fmt.Sprintf("subscriber %s (B joined before value %d): value %s delivered %s after the emission of its previously delivered value %s began (< %v)", name, join, ev[i].Val, ms(dt), prev.Val, d))
+					}
+				}
+				prev = &ev[i]
+			}
+			res.Events += int64(len(ev))
+		}
+	case "delayeach":
+		// every value is held for the duration before it is forwarded - also when the subscription
+		// context is cancelled while it waits
+		ctx, cancel := context.WithCancel(context.Background())
+		defer cancel()
+		x := driveRec(func(o ro.Observable[int]) func(*rec.Rec) ro.Subscription {
+			return func(r *rec.Rec) ro.Subscription { return ro.DelayEach[int](d)(o).SubscribeWithContext(ctx, rec.Raw[int](r)) }
+		}, gs, end, nil)
+		if rng.Intn(2) == 0 {
+			go func(after time.Duration) { time.Sleep(after); cancel() }(time.Duration(rng.Int63n(int64(time.Duration(n) * d))))
+		}
+		<-x.done
+		waitTerminal(x.r, time.Second)
+		func() { defer func() { recover() }(); x.sub.Unsubscribe() }()
+		ev := x.r.Events()
+		em := emByVal(x)
+		if msg, ok := subseq(ev, n); !ok {
+			return fail("reordered-or-invented", msg)
+		}
+		for _, e := range ev {
+			if e.Kind == rec.Next {
+				if lag := e.T - em[e.Val].TBegin; lag < int64(d) {
+					return fail("delivered-early", fmt.Sprintf("value %s delivered %s after its emission began (< %v)", e.Val, ms(lag), d))
+				}
+			}
 		}
 		res.Events = int64(len(ev))
 	case "sampletime":
